@@ -146,7 +146,14 @@ def sweep(names, props):
             print(name, "patch does not apply:", out[-200:])
             results[name] = {"error": "patch does not apply"}
             continue
+        # SWEEP_MODE=target runs only the check of the property the change was written against; SWEEP_MODE=only:C17,C02 runs
+        # the named checks; in both cases the other columns of an existing row are kept
+        mode = os.environ.get("SWEEP_MODE", "full")
+        all_props = props
         row = {}
+        if mode != "full":
+            row = dict(results.get(name, {}).get("checks", {}))
+            props = [meta["breaks_property"]] if mode == "target" else mode.split(":", 1)[1].split(",")
         try:
             def one(p):
                 rc, out = sh(f"./check {p} --tier quick", cwd=VERIF, timeout=7200)
@@ -156,9 +163,10 @@ def sweep(names, props):
             first, rest = props[0], props[1:]
             row[first] = one(first)[1]
             from concurrent.futures import ThreadPoolExecutor
-            with ThreadPoolExecutor(max_workers=int(os.environ.get("SWEEP_JOBS", "4"))) as ex:
-                for p, r in ex.map(one, rest):
-                    row[p] = r
+            if rest:
+                with ThreadPoolExecutor(max_workers=int(os.environ.get("SWEEP_JOBS", "4"))) as ex:
+                    for p, r in ex.map(one, rest):
+                        row[p] = r
             # a check that came back inconclusive under the parallel load is repeated alone
             for p in props:
                 if row[p]["rc"] == 2:
@@ -166,6 +174,7 @@ def sweep(names, props):
         finally:
             sh("git checkout -- .", cwd="/repo")
             shutil.rmtree(os.path.join(VERIF, "replays"), ignore_errors=True)
+        props = all_props
         results[name] = {"breaks": meta["breaks_property"], "checks": row}
         caught = [p for p, r in row.items() if r["rc"] == 1]
         incon = [p for p, r in row.items() if r["rc"] == 2]
@@ -194,6 +203,8 @@ def table():
             m = re.search(r"(?im)^(?:#+\s*)?(?:what|the change|change)[^\n]*\n+(.+?)(?:\n\n|\n#)", txt, re.S)
             what = (m.group(1) if m else txt[:300]).replace("\n", " ").replace("|", "/")[:230]
         mark = "" if r["breaks"] in caught else " **(target check silent)**"
+        if len(r["checks"]) < 20:
+            mark += f" [only {len(r['checks'])} of the 20 checks were run against this change in the last sweep]"
         lines.append(f"| `{name}` | {r['breaks']} | {what} | {', '.join(caught) or '-'}{mark}" + (f" (inconclusive: {', '.join(incon)})" if incon else "") + f" | `{sig}` |")
     print("\n".join(lines))
 
